@@ -24,6 +24,8 @@ func main() {
 		rc = gentapeMain(os.Args[2:])
 	case "describe":
 		rc = describeMain(os.Args[2:])
+	case "soloref":
+		rc = solorefMain(os.Args[2:])
 	default:
 		fmt.Fprintln(os.Stderr, "unknown subcommand", os.Args[1])
 		rc = 2
